@@ -15,6 +15,7 @@ RULE = ("each case runs a structure (repository proteins, cut-outs, chimeras; wi
         "Non-trivial: >= 20 hydrogens added and >= 1 regular residue with a side-chain complement "
         "claim; distinct = distinct (structure digest, pose, options).")
 RULE = RULE + " Round 8: 25 % of the built cases write ions (CD, CA, HG, ZN) before the protein; the moved frame's first conformation is written with write_pdb_for_atoms and read back by column."
+RULE = RULE + ' Rounds 10-12: axis-aligned and other library ligands (amides, amidinium, imidazole ...); multi-conformation cases (without insertion-code twins).'
 ASSUMPTIONS = ["the regular-geometry precondition is decided by the harness from the perceived bonds",
                "labels omit insertion codes, so inputs with insertion-code twins are not used for the warning clause (their hydrogen counts are judged)"]
 TIMEOUT = {"quick": 2400, "thorough": 14400}
@@ -288,7 +289,11 @@ def run_case(case, tier):
     def exclude(hs):
         # hetero groups: rotors are frame-dependent by design (statement of C04)
         return bool(hs) and hs[0]["type"] != "atom"
-    motion.compare_hydrogens(run0, runT, back_xyz, back_key, viol, counts, exclude=exclude)
+    if "conformations-that-differ" not in classes:
+        # (in the multi-conformation cases residues lose atoms in some conformations; what stands in for a missing
+        # neighbour is a rotor - the bond-length, coincidence and complement clauses above are judged there, the
+        # orientation clause on the single-conformation cases)
+        motion.compare_hydrogens(run0, runT, back_xyz, back_key, viol, counts, exclude=exclude)
     if pa:
         # under --protonate-all terminal rotors (one heavy neighbour) are built from orthogonal()
         viol[:] = [v for v in viol if v["cls"] != "rotor-hydrogen-frame-dependent"]
